@@ -565,12 +565,12 @@ class eval_abs(object):
                         '>>>c_rez', '>>>c_cf',]
 
 
-    def eval_ExprId(self, e, eval_cache = {}):
+    def eval_ExprId(self, e, eval_cache = None):
         if not e in self.pool:
             return e
         return self.pool[e]
 
-    def eval_ExprInt(self, e, eval_cache = {}):
+    def eval_ExprInt(self, e, eval_cache = None):
         return e
 
 
@@ -587,7 +587,10 @@ class eval_abs(object):
             o.append((b, stop))
         return o
 
-    def eval_ExprMem(self, e, eval_cache = {}):
+    def eval_ExprMem(self, e, eval_cache = None):
+        if eval_cache is None:
+            # (a default dictionary would be shared by every machine)
+            eval_cache = {}
         a_val = expr_simp(self.eval_expr(e.arg, eval_cache))
         if isinstance(a_val, ExprTop):
             #XXX hack test
@@ -693,7 +696,10 @@ class eval_abs(object):
         tmp = expr_simp(ExprSlice(self.pool[tmp], 0, a.size))
         return tmp
 
-    def eval_ExprOp(self, e, eval_cache = {}):
+    def eval_ExprOp(self, e, eval_cache = None):
+        if eval_cache is None:
+            # (a default dictionary would be shared by every machine)
+            eval_cache = {}
         args = []
         for a in e.args:
             b = expr_simp(self.eval_expr(a, eval_cache))
@@ -728,7 +734,10 @@ class eval_abs(object):
             return ret_value
         return ExprInt(cast_int(ret_value))
 
-    def eval_ExprCond(self, e, eval_cache = {}):
+    def eval_ExprCond(self, e, eval_cache = None):
+        if eval_cache is None:
+            # (a default dictionary would be shared by every machine)
+            eval_cache = {}
         cond = self.eval_expr(e.cond, eval_cache)
         src1 = self.eval_expr(e.src1, eval_cache)
         src2 = self.eval_expr(e.src2, eval_cache)
@@ -743,7 +752,10 @@ class eval_abs(object):
                 return src1
         return ExprCond(cond, src1, src2)
 
-    def eval_ExprSlice(self, e, eval_cache = {}):
+    def eval_ExprSlice(self, e, eval_cache = None):
+        if eval_cache is None:
+            # (a default dictionary would be shared by every machine)
+            eval_cache = {}
         arg = expr_simp(self.eval_expr(e.arg, eval_cache))
         if isinstance(arg, ExprTop):
             return ExprTop()
@@ -763,7 +775,10 @@ class eval_abs(object):
             return ExprSlice(arg, e.start, e.stop)
         return ExprSlice(arg, e.start, e.stop)
 
-    def eval_ExprCompose(self, e, eval_cache = {}):
+    def eval_ExprCompose(self, e, eval_cache = None):
+        if eval_cache is None:
+            # (a default dictionary would be shared by every machine)
+            eval_cache = {}
         args = []
         for x, start, stop in e.args:
             aa = self.eval_expr(x, eval_cache)
@@ -853,10 +868,13 @@ class eval_abs(object):
             # no integer type of that width: keep the pieces
             return ExprCompose([(a, start, stop) for a, start, stop in args])
 
-    def eval_ExprTop(self, e, eval_cache = {}):
+    def eval_ExprTop(self, e, eval_cache = None):
         return e
 
-    def eval_expr_no_cache(self, e, eval_cache = {}):
+    def eval_expr_no_cache(self, e, eval_cache = None):
+        if eval_cache is None:
+            # (a default dictionary would be shared by every machine)
+            eval_cache = {}
         c = e.__class__
         deal_class = {ExprId: self.eval_ExprId,
                       ExprInt: self.eval_ExprInt,
